@@ -17,7 +17,7 @@ ID = 'C20'
 
 BOUNDS = {
     'quick': dict(LQ=5, LF=3, N=1, PAIRS=40, STRAY=5),
-    'thorough': dict(LQ=6, LF=3, N=2, PAIRS=150, STRAY=8),
+    'thorough': dict(LQ=6, LF=3, N=1, PAIRS=150, STRAY=14, LIGHT_N=2),
 }
 
 EOF_RE = re.compile(r'end of input|end of file|\bEOF\b|unexpected end', re.I)
@@ -189,7 +189,8 @@ def work(task):
         alphabet = T.SIGMA_Q if alpha_name == 'Q' else T.SIGMA_FULL
         e1.explore(prefix, alphabet, L, visit, res)
     elif kind == 'sent':
-        _, n, lo, hi, pairs, nstray = task
+        _, n, lo, hi, pairs, nstray = task[:6]
+        light = len(task) > 6 and task[6]      # larger statements: one partner, two separators, partner first, two stray tokens
         cs = S.constructors()
         sks = _skeletons(n)
         for idx in range(lo, hi):
@@ -202,10 +203,12 @@ def work(task):
             others.append(['x', '=', '"p\u2028q\x85r\x0bs\x0ct\x1cu\x1ev"'])
             others.append(['#', 'odd', '\u2029', '\x85', '\x0c', 'comment'])
             odd = others[-2:]
+            if light:
+                others = others[:1]
             for lay in layouts(toks):
                 for other in others:
-                    for sep in (SEPS if other not in odd else SEPS[:1]):
-                        for order in ((0, 1) if other not in odd else (0,)):
+                    for sep in (SEPS[:2] if light else SEPS if other not in odd else SEPS[:1]):
+                        for order in ((0, 1) if other not in odd and not light else (0,)):
                             prog = (other + [sep] + lay) if order == 0 else (lay + [sep] + other)
                             res.count('programs')
                             # stray token at every position
@@ -216,7 +219,7 @@ def work(task):
                                 if i < len(prog):
                                     check_text(res, ' '.join(prog[:i]))
                             # deletion of every token
-                            for i in range(len(prog)):
+                            for i in range(0 if not light else len(prog), len(prog)):
                                 check_text(res, ' '.join(prog[:i] + prog[i + 1:]))
     return res
 
@@ -242,6 +245,10 @@ def main(tier, seed, t0):
     nsk = len(_skeletons(b['N']))
     step = max(1, nsk // 256)
     tasks += [('sent', b['N'], lo, min(nsk, lo + step), b['PAIRS'], b['STRAY']) for lo in range(0, nsk, step)]
+    if b.get('LIGHT_N'):
+        nsk2 = len(_skeletons(b['LIGHT_N']))
+        step2 = max(1, nsk2 // 1024)
+        tasks += [('sent', b['LIGHT_N'], lo, min(nsk2, lo + step2), 1, 2, True) for lo in range(0, nsk2, step2)]
     tasks = runner.rotate(tasks, seed)
     total = runner.run_tasks(work, tasks)
     total.merge(parent)
@@ -255,8 +262,10 @@ def main(tier, seed, t0):
         'rule': 'every erroneous token string of the C06 token spaces (SIGMA_Q <= %d, SIGMA_FULL <= %d tokens) and every '
                 'two-statement program built from statements with <= %d constructor nodes under %d separators x multi-line '
                 'bracket layouts, with each of %d stray tokens inserted at every position, every truncation and every '
-                'single-token deletion. distinct_nontrivial = distinct (offending token type, line, layout-before-error) '
-                'classes seen.' % (b['LQ'], b['LF'], b['N'], len(SEPS), b['STRAY']),
+                'single-token deletion%s. distinct_nontrivial = distinct (offending token type, line, layout-before-error) '
+                'classes seen.' % (b['LQ'], b['LF'], b['N'], len(SEPS), b['STRAY'],
+                                   ('; statements with <= %d nodes: one partner placed first, separators LF and ;, two stray tokens and truncations'
+                                    % b['LIGHT_N']) if b.get('LIGHT_N') else ''),
         'exhaustive': True,
         'bounds': b,
     }
